@@ -126,6 +126,8 @@ def rnd_mag(rng):
     r = rng.random()
     if r < 0.1:
         return 0.0
+    if r < 0.2:
+        return float(rng.choice([1, -1, 2, 0.5, -0.5]))     # values a special case might key on
     if r < 0.75:
         return rng.uniform(-10, 10)
     return rng.choice([-1, 1]) * 10 ** rng.uniform(-6, 6)
@@ -133,10 +135,13 @@ def rnd_mag(rng):
 
 def gen_float_transform(rng, tame=False):
     k = rng.choices(['translate', 'rotate', 'scale', 'matrix', 'lookat'], [2, 5, 2, 2, 3])[0]
-    val = (lambda: rng.uniform(-10, 10)) if tame else (lambda: rnd_mag(rng))
+    val = (lambda: rng.choice([0.0, 1.0, -1.0]) if rng.random() < 0.12 else rng.uniform(-10, 10)) if tame else (lambda: rnd_mag(rng))
     if k == 'translate':
         return [k] + [val() for _ in range(3)]
     if k == 'scale':
+        if rng.random() < 0.15:
+            v = val()
+            return [k, v, v, v]             # uniform scale
         return [k] + [val() for _ in range(3)]
     if k == 'rotate':
         while True:
@@ -148,7 +153,12 @@ def gen_float_transform(rng, tame=False):
             v = [0.0, 0.0, 0.0]
             v[rng.randrange(3)] = rng.choice([1.0, -1.0])
             n = 1.0
-        ang = rng.choice([rng.uniform(-720, 720), rng.uniform(-180, 180), float(rng.choice([30, 45, 60, 90, 120, 180, 270, -90, 0, 360]))])
+        if rng.random() < 0.1:
+            # an axis in a coordinate plane, or with two equal components
+            v = rng.choice([[1.0, 1.0, 0.0], [0.0, -1.0, 1.0], [1.0, 0.0, -1.0], [1.0, 1.0, 1.0], [-1.0, -1.0, -1.0]])
+            n = math.sqrt(sum(x * x for x in v))
+        ang = rng.choice([rng.uniform(-720, 720), rng.uniform(-180, 180),
+                          float(rng.choice([30, 45, 60, 90, 120, 180, 270, -90, -30, -180, 0, 360, 1e-3]))])
         return [k] + [x / n for x in v] + [ang]
     if k == 'matrix':
         return [k, [val() for _ in range(16)]]
@@ -156,6 +166,16 @@ def gen_float_transform(rng, tame=False):
         eye = [rng.uniform(-10, 10) for _ in range(3)]
         interest = [rng.uniform(-10, 10) for _ in range(3)]
         up = [rng.uniform(-1, 1) for _ in range(3)]
+        r = rng.random()
+        if r < 0.08:
+            eye = [0.0, 0.0, 0.0]
+        elif r < 0.16:
+            interest = [0.0, 0.0, 0.0]
+        elif r < 0.24:
+            up = [0.0, 0.0, 0.0]
+            up[rng.randrange(3)] = rng.choice([1.0, -1.0])       # an axis as up vector
+        elif r < 0.30:
+            up = [10 * x for x in up]                             # up need not be a unit vector
         d = [a - b for a, b in zip(eye, interest)]
         nd = math.sqrt(sum(x * x for x in d))
         nu = math.sqrt(sum(x * x for x in up))
@@ -169,6 +189,18 @@ def gen_float_transform(rng, tame=False):
 
 
 def gen_float_case(rng):
+    if rng.random() < 0.03:
+        # a long stack of rotations and small translations
+        ts = []
+        for _ in range(rng.randint(12, 40)):
+            t = gen_float_transform(rng, tame=True)
+            while t[0] not in ('rotate', 'translate'):
+                t = gen_float_transform(rng, tame=True)
+            if t[0] == 'translate':
+                t = [t[0]] + [x / 10.0 for x in t[1:]]
+            ts.append(t)
+        return {'mode': rng.choice(['C', 'L']), 'init': ts, 'edits': [], 'edits2': [], 'form': rng.randrange(6),
+                'save_via': rng.choice(['node', 'doc']), 'nest': rng.choice([0, 1, 2]), 'exact': False}
     if rng.random() < 0.4:
         # one transform alone, wide magnitudes
         t = gen_float_transform(rng)
